@@ -326,7 +326,7 @@ def gen_sle_case(rng):
             nl, ns = flows(); ops.append(['set', nl, ns])
         elif r < 0.3 and ops:
             ops.append(['reset'])
-        sol = rng.choice([None, None, None, 0.0625, 0.5, -0.125, 1., 0.25])
+        sol = rng.choice([None, None, None, 0.0625, 0.5, -0.125, 1., 0.25, 0.75, 0.875, 0.9375])
         solute = rng.choice(['P_', 'P_', 'Q_', 'S_', 'R_', 'Zz'])
         T = rng.choice([300., 330., 250., 320., 256., 450., None])
         ops.append(['call', {'solute': solute, 'T': T, 'H': rng.choice([None] * 9 + [0.]) if T is not None else rng.choice([None, 0.]),
@@ -833,41 +833,101 @@ def oracle_sle_real(case):
         if x > case['sol'] * (1 + 1e-9) + 1e-12: return f'liquid mole fraction {x} exceeds the given solubility {case["sol"]}'
     return None
 
+def sle_rules(tag, j, bl, bs, l, sd, x_given=None, basis=None):
+    """the SLE clauses on one call: bl/bs flows on entry, l/sd flows on exit (sequences of numbers), j the solute.
+    Returns a message or None."""
+    n = len(l)
+    tot = bl[j] + bs[j]
+    tol = 1e-9 * max(1., abs(float(tot)))
+    for i in range(n):
+        if i != j and (abs(float(l[i] - bl[i])) > tol or abs(float(sd[i] - bs[i])) > tol):
+            return f'sle-rules: {tag}: a chemical other than the solute moved (index {i})'
+    if abs(float(l[j] + sd[j] - tot)) > tol:
+        return f'sle-rules: {tag}: solute not conserved ({float(l[j] + sd[j]):.6g} vs {float(tot):.6g})'
+    if float(sd[j]) < -tol or float(l[j]) < -tol or float(l[j]) > float(tot) + tol:
+        return (f'sle-rules: {tag}: dissolved {float(l[j]):.6g} mol of solute but only {float(tot):.6g} is present '
+                f'(solid = {float(sd[j]):.6g})')
+    if x_given is not None and 0 <= x_given:
+        idx = range(n) if basis is None else basis
+        Fl = sum(float(l[i]) for i in idx)
+        if Fl > 0 and float(l[j]) > x_given * Fl * (1 + 1e-9) + tol:
+            return (f'sle-rules: {tag}: liquid mole fraction {float(l[j]) / Fl:.6g} of the solute exceeds the solubility '
+                    f'{x_given} that was given / computed')
+    return None
+
 def oracle_sle_hist(case):
-    """a solute/solvent call made after an earlier call on the same stream must give what a new stream gives"""
+    """real SLE on database chemicals: after every call of a history the SLE rules hold (only the solute moves, conserved,
+    0 <= dissolved <= present, never above a given solubility); a computed call made after earlier calls on the same stream
+    gives what a new stream gives"""
     e = env(); tmo = e['tmo']
     tmo.settings.set_thermo(case['chems'], cache=True)
     ids = case['chems']
-    def load(s, l, sd):
-        s.imol['l'] = 0.; s.imol['s'] = 0.
-        for k, v in l.items(): s.imol['l', k] = v
-        for k, v in sd.items(): s.imol['s', k] = v
+    def load(s, step):
+        if 'l' in step or 's' in step:
+            s.imol['l'] = 0.; s.imol['s'] = 0.
+            for k, v in step.get('l', {}).items(): s.imol['l', k] = v
+            for k, v in step.get('s', {}).items(): s.imol['s', k] = v
     s = tmo.MultiStream(None, T=298.15, P=101325., phases='ls')
+    done = []
     for step in case['steps']:
-        load(s, step['l'], step['s']); s.sle(step['solute'], T=step['T'])
+        load(s, step)
+        bl = np.array(s.imol['l', ids], float); bs = np.array(s.imol['s', ids], float)
+        tag = f'after {done} the call sle({step["solute"]}, T={step["T"]}, solubility={step.get("sol")})'
+        try:
+            s.sle(step['solute'], T=step['T'], solubility=step.get('sol'))
+        except Exception as ex:
+            return f'sle-rules: {tag} raised {type(ex).__name__}: {ex}'
+        l = np.array(s.imol['l', ids], float); sd = np.array(s.imol['s', ids], float)
+        m = sle_rules(tag, ids.index(step['solute']), bl, bs, l, sd, step.get('sol'))
+        if m: return m
+        done.append((step['solute'], step['T'], step.get('sol')))
     last = case['steps'][-1]
-    f = tmo.MultiStream(None, T=298.15, P=101325., phases='ls')
-    load(f, last['l'], last['s']); f.sle(last['solute'], T=last['T'])
-    a = np.array(s.imol['l', ids], float); b = np.array(f.imol['l', ids], float)
-    if np.abs(a - b).max() > 1e-6 * max(1., np.abs(b).max()):
-        return (f'sle-history: after {[(st["solute"], st["T"]) for st in case["steps"][:-1]]} the call {last["solute"]}, T={last["T"]} '
-                f'dissolves {np.round(a, 5).tolist()} but a new stream dissolves {np.round(b, 5).tolist()}')
+    if last.get('sol') is None and len(case['steps']) > 1:
+        f = tmo.MultiStream(None, T=298.15, P=101325., phases='ls')
+        f.imol['l', ids] = bl; f.imol['s', ids] = bs
+        f.sle(last['solute'], T=last['T'])
+        a = l; b = np.array(f.imol['l', ids], float)
+        if np.abs(a - b).max() > 1e-6 * max(1., np.abs(b).max()):
+            return (f'sle-history: after {done[:-1]} the call {last["solute"]}, T={last["T"]} '
+                    f'dissolves {np.round(a, 5).tolist()} but a new stream dissolves {np.round(b, 5).tolist()}')
     return None
 
 def oracle_sle_stub(case):
-    """stub histories: whenever a call succeeds on a mixture with two or more LLE chemicals present, the amount dissolved must
-    respect the solubility computed in that call (the pure-solute rule of an earlier call must not be applied)"""
+    """stub histories (solubility_eutectic / flexsolve / Gamma replaced by stand-ins): after every successful call the SLE rules
+    hold; a mixture is never treated as the pure solute of an earlier call"""
     out = run_sle(case)
-    l, sd = case['l'], case['s']
+    l, sd = [F(x) for x in case['l']], [F(x) for x in case['s']]
     for op, o in zip(case['ops'], out['obs']):
-        if op[0] == 'set': l, sd = op[1], op[2]
-        elif op[0] == 'call' and o['ret'][0] == 'ok' and op[1]['sol'] is None:
-            tot = [F(x) + F(y) for x, y in zip(l, sd)]
-            n_lle = len([i for i in SLE_LLE_INDEX if tot[i] != 0])
-            if n_lle != 1 and o['chemical'] is not None:
-                return (f'sle-history: {op[1]["solute"]} at T={op[1]["T"]} with {n_lle} chemicals in equilibrium was treated as the pure '
-                        f'solute {SLE_IDS[o["chemical"]]} of an earlier call')
-        l, sd = [F(x) for x in o['l']], [F(x) for x in o['s']]
+        if op[0] == 'set': l, sd = [F(x) for x in op[1]], [F(x) for x in op[2]]
+        nl, ns = [F(x) for x in o['l']], [F(x) for x in o['s']]
+        if op[0] == 'call':
+            a = op[1]
+            tag = f'sle({a["solute"]}, T={a["T"]}, solubility={a["sol"]}) on l={[float(x) for x in l]} s={[float(x) for x in sd]}'
+            if a['solute'] in SLE_IDS:
+                j = SLE_IDS.index(a['solute'])
+                if o['ret'][0] == 'ok':
+                    tot = [x + y for x, y in zip(l, sd)]
+                    lle_present = [i for i in SLE_LLE_INDEX if tot[i] != 0]
+                    if a['sol'] is None and len(lle_present) != 1 and o['chemical'] is not None:
+                        return (f'sle-history: {a["solute"]} at T={a["T"]} with {len(lle_present)} chemicals in equilibrium was treated '
+                                f'as the pure solute {SLE_IDS[o["chemical"]]} of an earlier call')
+                    x, basis = None, None
+                    if a['sol'] is not None:
+                        x = a['sol']
+                    elif case['ideal'] and o['chemical'] is None and j in lle_present:
+                        c = SLE_CHEMS[j]; ev = a['e']; g = case['act'] or 1.
+                        x = ev[0] + ev[1] * g + ev[2] * (a['T'] - c[2]) + ev[3] * (c[3] + CPL - CPS)
+                        basis = lle_present if o['index'] != 'all' else None
+                    m = sle_rules(tag, j, l, sd, nl, ns, x, basis)
+                    if m: return m
+                else:
+                    # a call that raises may have written the solute entries, never anything else
+                    for i in range(4):
+                        if i != j and (nl[i] != l[i] or ns[i] != sd[i]):
+                            return f'sle-rules: {tag} raised {o["ret"][2]} and moved chemical {i}'
+            elif nl != l or ns != sd:
+                return f'sle-rules: {tag}: unknown solute but the flows changed'
+        l, sd = nl, ns
     return None
 
 def oracle_lle_stub(case):
@@ -926,6 +986,7 @@ def finding_key(case, msg):
     if msg.startswith('activities differ') and 'pseudo equilibrium' in msg: return 'lle_inner_loop_logK'
     if msg.startswith('cache:') or msg.startswith('reusing remembered'): return 'lle_use_cache_signed_difference'
     if msg.startswith('sle-history'): return 'sle_stale_pure_chemical'
+    if msg.startswith('sle-rules'): return 'sle_rules'
     return 'C15:' + msg.split(':')[0][:40].replace(' ', '_')
 
 WOE = ['Water', 'Octanol', 'Ethanol']
@@ -963,6 +1024,26 @@ def search_cases(rng, tier):
     cases.append({'kind': 'sle_hist_real', 'chems': ['Water', 'Tetradecanol', 'Octanol'],
                   'steps': [{'l': {'Tetradecanol': 5.}, 's': {}, 'solute': 'Tetradecanol', 'T': 300.},
                             {'l': {'Water': 10., 'Octanol': 2., 'Tetradecanol': 5.}, 's': {}, 'solute': 'Tetradecanol', 'T': 305.}]})
+    sle_chems = ['Water', 'Methanol', 'Octanol', 'Tetradecanol']
+    feeds = [{'Methanol': 10., 'Tetradecanol': 30.}, {'Methanol': 2., 'Octanol': 1., 'Tetradecanol': 25.},
+             {'Methanol': 40., 'Octanol': 5., 'Water': 1., 'Tetradecanol': 4.}]
+    for feed in feeds:
+        for T1 in (255., 450., 290.):                     # earlier call: mostly solid / all liquid / partly solid on entry
+            for x in (0.0, 0.05, 0.3, 0.6, 0.8, 0.9, 0.95, 0.99, 1.0):
+                cases.append({'kind': 'sle_hist_real', 'chems': sle_chems,
+                              'steps': [{'l': feed, 's': {}, 'solute': 'Tetradecanol', 'T': 300.},
+                                        {'solute': 'Tetradecanol', 'T': T1},
+                                        {'solute': 'Tetradecanol', 'T': 300., 'sol': x}]})
+            for T2 in (255., 285., 300., 306., 311., 312.5, 330.):
+                cases.append({'kind': 'sle_hist_real', 'chems': sle_chems,
+                              'steps': [{'l': feed, 's': {}, 'solute': 'Tetradecanol', 'T': 300.},
+                                        {'solute': 'Tetradecanol', 'T': T1}, {'solute': 'Tetradecanol', 'T': T2}]})
+        # a feed that carries solids, given solubility on the second call
+        half = {k: (v / 2 if k == 'Tetradecanol' else v) for k, v in feed.items()}
+        for x in (0.3, 0.8, 0.95):
+            cases.append({'kind': 'sle_hist_real', 'chems': sle_chems,
+                          'steps': [{'l': half, 's': {'Tetradecanol': feed['Tetradecanol'] / 2}, 'solute': 'Tetradecanol', 'T': 300.},
+                                    {'l': half, 's': {'Tetradecanol': feed['Tetradecanol'] / 2}, 'solute': 'Tetradecanol', 'T': 300., 'sol': x}]})
     cases.append({'kind': 'sle_real', 'chems': ['Water', 'Tetradecanol'], 'l': {'Water': 10., 'Tetradecanol': 5.}, 's': {}, 'solute': 'Tetradecanol', 'T': 300.})
     cases.append({'kind': 'sle_real', 'chems': ['Water', 'Tetradecanol'], 'l': {'Tetradecanol': 5.}, 's': {}, 'solute': 'Tetradecanol', 'T': 320.})
     cases.append({'kind': 'sle_real', 'chems': ['Water', 'Tetradecanol'], 'l': {}, 's': {'Tetradecanol': 5.}, 'solute': 'Tetradecanol', 'T': 300.})
